@@ -2,32 +2,33 @@
 C26 — BABE epoch data is taken from the block's own fork.  Core Lean only.
 
 Model of dot/state/epoch.go (`nextEpochMap`, `HandleBABEDigest`, `storeBABENextEpochData/ConfigData`,
-`Retrieve`, `findAncestor`, `GetEpochDataRaw`, `GetConfigData`, `GetEpochForBlock`,
-`retrieveFirstNonOriginBlockSlot`) over the part of dot/state/block.go it calls (`GetHeader`,
-`IsDescendantOf`, `GetHashesByNumber(1)`, `AddBlock`).
+`Retrieve`, `RetrieveAndUpdate`, `findAncestor`, `GetEpochDataRaw`, `GetConfigData`, `GetSkippedEpochDataRaw`,
+`GetSkippedConfigData`, `UpdateSkippedEpochDefinitions`, `FinalizeBABENextEpochData/ConfigData`,
+`GetEpochForBlock`, `retrieveFirstNonOriginBlockSlot`, `NewEpochState/restoreMapFromDisk`) over the block state
+of Model/C17 (`AddBlock`, `SetFinalisedHash`, `GetHeader`) plus `BlockState.IsDescendantOf` with its
+header-walk fallback and `GetHashesByNumber(1)`.  Finalisation is part of the histories: the tree root moves,
+abandoned forks are pruned, finalised headers live in the header table.
 
-Hashes are natural numbers, `0` is `common.EmptyHash` (the parent hash of genesis).  A header is the record
-`(hash, parent, number, slot)`; the hash determines the header in Go, which the theorems take as the
-hypothesis `Consistent`.  No block is finalised in this model: the block-tree root is genesis and every
-imported header is answered by `GetHeader` (assumption recorded in config.json).
+Hashes are natural numbers, `0` is `common.EmptyHash`.  The hash determines the header: a case fixes a
+universe `Univ` (hash ↦ header, hash ↦ BABE slot) and every operation names a block by its hash.
 
-Go maps.  `nextEpochMap` is `map[epoch]map[hash]T`; the inner map is ranged over in `findAncestor`, so the
-entry that is returned when several announcing hashes lie on the queried block's ancestry depends on Go's
-random iteration order.  The model returns ALL entries the range could return first (`FA.found cands`);
-the theorems hold for every element of `cands`, i.e. for every iteration order.
+Go maps.  The inner map of `nextEpochMap` is ranged over in `findAncestor` (and in
+`findFinalizedHeaderForEpoch`), so which entry is taken when several qualify depends on Go's random iteration
+order.  Lookups return ALL entries the range could return first (`FA.found cands`, `Res.mem cands`) and the
+theorems hold for every element.  Where such a choice is written back (`RetrieveAndUpdate`, `Finalize…`) the
+model takes the first candidate; the harness does not generate histories where that choice is not unique.
 
-`findAncestor` has no loop bound in Go.  The model takes fuel; `C26_terminates` shows `number + 1` is enough
-(and `C26_fuel_stable` that more fuel never changes the answer), which is the property's "fails promptly".
-`findAncOld` is the loop as it was before the repair (it re-read the ORIGINAL header's parent).
+`findAncestor` has no loop bound in Go; the model takes fuel (`C26_terminates`: number + 1 suffices).
+`findAncOld` is the loop before the repair (it re-read the ORIGINAL header's parent).
 -/
+import Gossamer.Model.C17
 namespace Gossamer.C26
+open Gossamer.C17 (Blk findB)
 
-structure Hdr where
-  hash : Nat
-  parent : Nat
-  number : Nat
-  slot : Nat
-deriving DecidableEq, Repr, Inhabited
+/-- the headers of a case: `blk h` is the header with hash `h`, `slot h` its BABE slot number -/
+structure Univ where
+  blk : Nat → Blk
+  slot : Nat → Nat
 
 /-- inner Go map `map[common.Hash]T`: announcing hash ↦ data id -/
 abbrev Entries := List (Nat × Nat)
@@ -36,21 +37,27 @@ abbrev EpochMap := List (Nat × Entries)
 
 structure St where
   epochLen : Nat
-  /-- headers `GetHeader` answers: genesis first, then `AddBlock` order -/
-  imported : List Hdr
+  /-- the block state (block tree, unfinalisedBlocks, header table, …) -/
+  bs : C17.St
+  /-- `firstSlotNumberKey` (0 = not set) -/
+  fsn : Nat
   nextEpoch : EpochMap
   nextConfig : EpochMap
+  /-- the copies of both maps in the database (`nextepochdata…` / `nextconfigdata…` keys) -/
+  diskEpoch : EpochMap
+  diskConfig : EpochMap
   /-- `epochDataKey(epoch)` / `configDataKey(epoch)` entries of the database -/
   dbEpoch : List (Nat × Nat)
   dbConfig : List (Nat × Nat)
 deriving Repr, Inhabited
 
-def genesis : Hdr := { hash := 1, parent := 0, number := 0, slot := 0 }
+def genesis : Blk := { hash := 1, parent := 0, number := 0, sroot := 0 }
 
 def St.init (epochLen : Nat) : St :=
-  { epochLen := epochLen, imported := [genesis], nextEpoch := [], nextConfig := [], dbEpoch := [], dbConfig := [] }
+  { epochLen := epochLen, bs := C17.St.init genesis, fsn := 0, nextEpoch := [], nextConfig := [],
+    diskEpoch := [], diskConfig := [], dbEpoch := [], dbConfig := [] }
 
-/-! ### association lists (Go maps) -/
+/-! ### association lists (Go maps, database keys) -/
 
 def lookup {β : Type} (m : List (Nat × β)) (k : Nat) : Option β :=
   match m.find? (fun p => p.1 = k) with
@@ -61,6 +68,9 @@ def lookup {β : Type} (m : List (Nat × β)) (k : Nat) : Option β :=
 def insert {β : Type} (m : List (Nat × β)) (k : Nat) (v : β) : List (Nat × β) :=
   if m.any (fun p => p.1 = k) then m.map (fun p => if p.1 = k then (k, v) else p) else m ++ [(k, v)]
 
+/-- `delete(m, k)` -/
+def erase {β : Type} (m : List (Nat × β)) (k : Nat) : List (Nat × β) := m.filter (fun p => p.1 ≠ k)
+
 /-- `storeBABENextEpochData` / `storeBABENextConfigData`: `m[epoch][hash] = data` -/
 def store (m : EpochMap) (epoch hash data : Nat) : EpochMap :=
   match lookup m epoch with
@@ -69,35 +79,42 @@ def store (m : EpochMap) (epoch hash data : Nat) : EpochMap :=
 
 /-! ### dot/state/block.go -/
 
-/-- `BlockState.GetHeader` -/
-def getHeader (st : St) (h : Nat) : Option Hdr := st.imported.find? (fun x => x.hash = h)
+/-- `BlockState.GetHeader`: unfinalisedBlocks, then the header table -/
+def getHeader (st : St) (h : Nat) : Option Blk := C17.getHeader st.bs h
 
-/-- the hash and its imported ancestors, following parent links (`fuel` steps at most) -/
-def ancList (st : St) : Nat → Nat → List Nat
-  | 0, _ => []
-  | fuel + 1, h =>
-    match getHeader st h with
-    | none => []
-    | some x => h :: ancList st fuel x.parent
+/-- the loop of the fallback in `BlockState.IsDescendantOf`:
+    `for current := descendant; current.Number > ancestor.Number; current = GetHeader(current.ParentHash)` -/
+def headerWalk (st : St) (a aNum : Nat) : Nat → Blk → Option Bool
+  | 0, _ => none
+  | fuel + 1, cur =>
+    if cur.number > aNum then
+      if cur.parent = a then some true
+      else match getHeader st cur.parent with
+        | none => none
+        | some p => headerWalk st a aNum fuel p
+    else some false
 
-/-- `BlockState.IsDescendantOf(ancestor, descendant)`; `none` = an error wrapping `database.ErrNotFound`.
-    With no finalised blocks the block tree holds exactly the imported headers, so the fallback walk over
-    headers is entered only when one of the two is unknown and then fails at its first `GetHeader`. -/
+/-- `BlockState.IsDescendantOf(ancestor, descendant)`; `none` = an error wrapping `database.ErrNotFound` -/
 def isDesc (st : St) (a d : Nat) : Option Bool :=
   if a = d then some true
-  else match getHeader st a, getHeader st d with
-    | some _, some x => some (decide (a ∈ ancList st (x.number + 1) d))
-    | _, _ => none
+  else match findB st.bs.tree a, findB st.bs.tree d with
+    | some _, some dn => some (decide (a ∈ C17.up st.bs dn))      -- both in the block tree
+    | _, _ =>
+      match getHeader st d, getHeader st a with
+      | some dh, some ah => headerWalk st a ah.number (dh.number + 1) dh
+      | _, _ => none
 
-/-- `BlockState.AddBlock` → `BlockTree.AddBlock`: parent in the tree, block not yet in the tree,
-    `number == parent.number + 1` -/
-def addBlock (st : St) (h : Hdr) : Option St :=
-  match getHeader st h.parent with
-  | none => none
-  | some p =>
-    if (getHeader st h.hash).isSome then none
-    else if p.number + 1 ≠ h.number then none
-    else some { st with imported := st.imported ++ [h] }
+/-- `BlockState.GetHashesByNumber(1)`: the tree nodes with number 1, else the number table -/
+def hashesAt1 (st : St) : List Nat :=
+  let rootNum := match findB st.bs.tree st.bs.root with
+    | some rb => rb.number
+    | none => 0
+  let mem := if 1 < rootNum then [] else (st.bs.tree.filter (fun b => b.number = 1)).map (·.hash)
+  if mem.isEmpty then
+    match C17.lookupN st.bs.dbNum 1 with
+    | some h => [h]
+    | none => []
+  else mem
 
 /-! ### findAncestor -/
 
@@ -113,7 +130,7 @@ def hit (st : St) (cur : Nat) (e : Nat × Nat) : Bool :=
   e.1 = cur || isDesc st e.1 cur == some true
 
 /-- `findAncestor` (repaired: `GetHeader(currentHeader.ParentHash)`) -/
-def findAnc (st : St) (entries : Entries) : Nat → Hdr → FA
+def findAnc (st : St) (entries : Entries) : Nat → Blk → FA
   | 0, _ => .outOfFuel
   | fuel + 1, cur =>
     let c := entries.filter (hit st cur.hash)
@@ -124,7 +141,7 @@ def findAnc (st : St) (entries : Entries) : Nat → Hdr → FA
       | some p => findAnc st entries fuel p
 
 /-- `findAncestor` as it was: `GetHeader(header.ParentHash)` with the ORIGINAL header -/
-def findAncOld (st : St) (entries : Entries) (orig : Hdr) : Nat → Hdr → FA
+def findAncOld (st : St) (entries : Entries) (orig : Blk) : Nat → Blk → FA
   | 0, _ => .outOfFuel
   | fuel + 1, cur =>
     let c := entries.filter (hit st cur.hash)
@@ -144,26 +161,40 @@ inductive Res where
   | timeout
 deriving DecidableEq, Repr
 
+def Res.ofFA : FA → Res
+  | .found c => .mem c
+  | .errHash => .errHash
+  | .errParent => .errParent
+  | .outOfFuel => .timeout
+
 /-- `nextEpochMap.Retrieve` -/
-def retrieve (st : St) (m : EpochMap) (epoch : Nat) (hdr : Hdr) : Res :=
+def retrieve (st : St) (m : EpochMap) (epoch : Nat) (hdr : Blk) : Res :=
   match lookup m epoch with
   | none => .errEpoch
+  | some entries => Res.ofFA (findAnc st entries (hdr.number + 1) hdr)
+
+/-- `nextEpochMap.RetrieveAndUpdate(oldEpoch, newEpoch, header)`: the map afterwards and the answer -/
+def retrieveAndUpdate (st : St) (m : EpochMap) (old new : Nat) (hdr : Blk) : EpochMap × Res :=
+  match lookup m old with
+  | none => (m, .errEpoch)
   | some entries =>
     match findAnc st entries (hdr.number + 1) hdr with
-    | .found c => .mem c
-    | .errHash => .errHash
-    | .errParent => .errParent
-    | .outOfFuel => .timeout
+    | .found [] => (m, .errHash)
+    | .found (x :: rest) =>
+      let m1 := insert m old (erase entries x.1)
+      let hashes := (lookup m1 new).getD []
+      (insert m1 new (insert hashes x.1 x.2), .mem (x :: rest))
+    | r => (m, Res.ofFA r)
 
 /-- `GetEpochDataRaw(epoch, header)` (header non-nil) -/
-def getEpochDataRaw (st : St) (epoch : Nat) (hdr : Hdr) : Res :=
+def getEpochDataRaw (st : St) (epoch : Nat) (hdr : Blk) : Res :=
   if epoch = 0 then .gen
   else match lookup st.dbEpoch epoch with
     | some d => .db d
     | none => retrieve st st.nextEpoch epoch hdr
 
 /-- `GetConfigData(epoch, header)`: `for tryEpoch := epoch; tryEpoch >= 0; tryEpoch--` -/
-def getConfigData (st : St) (hdr : Hdr) : Nat → Res
+def getConfigData (st : St) (hdr : Blk) : Nat → Res
   | 0 => .gen
   | e + 1 =>
     match lookup st.dbConfig (e + 1) with
@@ -174,6 +205,68 @@ def getConfigData (st : St) (hdr : Hdr) : Nat → Res
       | .errHash => getConfigData st hdr e
       | r => r
 
+/-- `updateEpochDefinitionKey`: move a database definition from `old` to `new` -/
+def dbMove (db : List (Nat × Nat)) (old new : Nat) : Option (List (Nat × Nat) × Nat) :=
+  match lookup db old with
+  | none => none
+  | some d => some (insert (erase db old) new d, d)
+
+/-- would `RetrieveAndUpdate(skipped, …, header)` have to choose between several entries? -/
+def ambRU (st : St) (m : EpochMap) (db : List (Nat × Nat)) (skipped : Nat) (hdr : Blk) : Bool :=
+  skipped ≠ 0 && (lookup db skipped).isNone &&
+    match lookup m skipped with
+    | none => false
+    | some entries =>
+      match findAnc st entries (hdr.number + 1) hdr with
+      | .found c => decide (c.length > 1)
+      | _ => false
+
+/-- `GetSkippedEpochDataRaw(skipped, current, header)` -/
+def getSkippedEpochData (st : St) (skipped current : Nat) (hdr : Blk) : St × Res :=
+  if skipped = 0 then (st, .gen)
+  else match dbMove st.dbEpoch skipped current with
+    | some (db', d) => ({ st with dbEpoch := db' }, .db d)
+    | none =>
+      let (m, r) := retrieveAndUpdate st st.nextEpoch skipped current hdr
+      ({ st with nextEpoch := m }, r)
+
+/-- `GetSkippedConfigData(skipped, current, header)` -/
+def getSkippedConfig (st : St) (skipped current : Nat) (hdr : Blk) : St × Res :=
+  if skipped = 0 then (st, .gen)
+  else match dbMove st.dbConfig skipped current with
+    | some (db', d) => ({ st with dbConfig := db' }, .db d)
+    | none =>
+      let (m, r) := retrieveAndUpdate st st.nextConfig skipped current hdr
+      let st' := { st with nextConfig := m }
+      match r with
+      | .errEpoch => (st', getConfigData st' hdr (skipped - 1))
+      | .errHash => (st', getConfigData st' hdr (skipped - 1))
+      | r => (st', r)
+
+/-- `UpdateSkippedEpochDefinitions(skipped, current, header)`; `false` = an error was returned -/
+def updateSkipped (st : St) (skipped current : Nat) (hdr : Blk) : St × Bool :=
+  if skipped = 0 then (st, true)
+  else
+    -- updateSkippedEpochDataRaw
+    let (st1, ok1) : St × Bool :=
+      match dbMove st.dbEpoch skipped current with
+      | some (db', _) => ({ st with dbEpoch := db' }, true)
+      | none =>
+        let (m, r) := retrieveAndUpdate st st.nextEpoch skipped current hdr
+        ({ st with nextEpoch := m }, match r with | .mem _ => true | _ => false)
+    if !ok1 then (st1, false)
+    else
+      -- updateSkippedConfigData
+      match dbMove st1.dbConfig skipped current with
+      | some (db', _) => ({ st1 with dbConfig := db' }, true)
+      | none =>
+        let (m, r) := retrieveAndUpdate st1 st1.nextConfig skipped current hdr
+        ({ st1 with nextConfig := m }, match r with
+          | .mem _ => true
+          | .errEpoch => true
+          | .errHash => true
+          | _ => false)
+
 /-! ### GetEpochForBlock -/
 
 inductive Slot where
@@ -182,59 +275,167 @@ inductive Slot where
   | other
 deriving DecidableEq, Repr
 
-/-- `retrieveFirstNonOriginBlockSlot(blockHash)`; `firstSlotNumberKey` is unset while nothing is finalised -/
-def retrieveFirst (st : St) (bh : Nat) : Slot :=
-  match st.imported.filter (fun x => x.number = 1) with
-  | [] => .other
-  | [x] => .ok x.slot
-  | xs =>
-    match getHeader st bh with
+/-- the loop over the number-1 hashes: the first `IsDescendantOf` error ends it; no ancestor found = the zero
+    hash is looked up, which fails -/
+def scanFirst (u : Univ) (st : St) (bh : Nat) : List Nat → Slot
+  | [] => .notFound
+  | x :: rest =>
+    match isDesc st x bh with
     | none => .notFound
-    | some b =>
-      if b.number = 1 then .ok b.slot
-      else match xs.find? (fun x => isDesc st x.hash bh == some true) with
-        | some x => .ok x.slot
-        | none => .notFound
+    | some true => (match getHeader st x with | some _ => .ok (u.slot x) | none => .notFound)
+    | some false => scanFirst u st bh rest
+
+/-- `retrieveFirstNonOriginBlockSlot(blockHash)` -/
+def retrieveFirst (u : Univ) (st : St) (bh : Nat) : Slot :=
+  if st.fsn ≠ 0 then .ok st.fsn
+  else match hashesAt1 st with
+    | [] => .other
+    | [x] => (match getHeader st x with | some _ => .ok (u.slot x) | none => .notFound)
+    | xs =>
+      match getHeader st bh with
+      | none => .notFound
+      | some b => if b.number = 1 then .ok (u.slot b.hash) else scanFirst u st bh xs
 
 /-- `GetEpochForBlock`; uint64 subtraction wraps -/
-def epochForBlock (st : St) (hdr : Hdr) : Option Nat :=
+def epochForBlock (u : Univ) (st : St) (hdr : Blk) : Option Nat :=
   if hdr.number ≤ 1 then some 0
   else
-    let r := match retrieveFirst st hdr.hash with
-      | .notFound => retrieveFirst st hdr.parent
+    let r := match retrieveFirst u st hdr.hash with
+      | .notFound => retrieveFirst u st hdr.parent
       | r => r
     match r with
-    | .ok first => some (((18446744073709551616 + hdr.slot - first) % 18446744073709551616) / st.epochLen)
+    | .ok first => some (((18446744073709551616 + u.slot hdr.hash - first) % 18446744073709551616) / st.epochLen)
     | _ => none
-
-/-! ### operations -/
-
-inductive Op where
-  | add (h : Hdr)                 -- AddBlock
-  | ann (h : Hdr) (d : Nat)       -- HandleBABEDigest(header, NextEpochData d)
-  | cfg (h : Hdr) (d : Nat)       -- HandleBABEDigest(header, NextConfigDataV1 d)
-  | dbe (epoch d : Nat)           -- SetEpochDataRaw
-  | dbc (epoch d : Nat)           -- StoreConfigData
-  | restart                       -- NewEpochState: maps restored from the database
-deriving Repr
 
 /-- `nextEpoch := currEpoch + 1` in uint64 -/
 def nextOf (e : Nat) : Nat := (1 + e) % 18446744073709551616
 
-def step (st : St) : Op → St × Bool
-  | .add h => match addBlock st h with
-    | some st' => (st', true)
-    | none => (st, false)
-  | .ann h d => match epochForBlock st h with
-    | some e => ({ st with nextEpoch := store st.nextEpoch (nextOf e) h.hash d }, true)
-    | none => (st, false)
-  | .cfg h d => match epochForBlock st h with
-    | some e => ({ st with nextConfig := store st.nextConfig (nextOf e) h.hash d }, true)
-    | none => (st, false)
-  | .dbe e d => ({ st with dbEpoch := insert st.dbEpoch e d }, true)
-  | .dbc e d => ({ st with dbConfig := insert st.dbConfig e d }, true)
-  | .restart => (st, true)
+/-! ### finalisation -/
 
-def run (epochLen : Nat) (ops : List Op) : St := ops.foldl (fun s o => (step s o).1) (St.init epochLen)
+/-- `subchain[1:]` of `handleFinalisedBlock` -/
+def subchain (bs : C17.St) (h : Nat) : List Blk :=
+  match C17.rangeInMemory bs bs.root h with
+  | .ok path => path.tail
+  | _ => []
+
+/-- `findFinalizedHeaderForEpoch`: the entries whose announcing block is in the header table -/
+def persisted (st : St) (entries : Entries) : Entries :=
+  entries.filter (fun x => (findB st.bs.dbHdr x.1).isSome)
+
+/-- the in-memory epochs `e <= nextEpoch` are dropped, and the same epochs on disk -/
+def dropUpTo (m : EpochMap) (next : Nat) : EpochMap := m.filter (fun p => p.1 > next)
+
+def dropDisk (disk mem : EpochMap) (next : Nat) : EpochMap :=
+  disk.filter (fun p => !(decide (p.1 ≤ next) && mem.any (fun q => q.1 = p.1)))
+
+/-- outcome of an operation that may have to write back a choice made by Go's map order: `amb` = the choice
+    is not unique, the operation is not performed (rule shared with the harness) -/
+inductive Tri where
+  | ok | err | amb
+deriving DecidableEq, Repr
+
+/-- `FinalizeBABENextEpochData(header)` -/
+def finalizeEpoch (u : Univ) (st : St) (hdr : Blk) : St × Tri :=
+  if hdr.number = 0 then (st, .ok)
+  else match epochForBlock u st hdr with
+    | none => (st, .err)
+    | some e =>
+      let next := nextOf e
+      match lookup st.dbEpoch next with
+      | some _ => (st, .ok)
+      | none =>
+        match lookup st.nextEpoch next with
+        | none => (st, .err)
+        | some entries =>
+          match persisted st entries with
+          | [] => (st, .err)
+          | [x] =>
+            ({ st with dbEpoch := insert st.dbEpoch next x.2, nextEpoch := dropUpTo st.nextEpoch next,
+                       diskEpoch := dropDisk st.diskEpoch st.nextEpoch next }, .ok)
+          | _ => (st, .amb)
+
+/-- `FinalizeBABENextConfigData(header)` (repaired: looks under `configDataKey`) -/
+def finalizeConfig (u : Univ) (st : St) (hdr : Blk) : St × Tri :=
+  if hdr.number = 0 then (st, .ok)
+  else match epochForBlock u st hdr with
+    | none => (st, .err)
+    | some e =>
+      let next := nextOf e
+      match lookup st.dbConfig next with
+      | some _ => (st, .ok)
+      | none =>
+        match lookup st.nextConfig next with
+        | none => (st, .ok)
+        | some entries =>
+          match persisted st entries with
+          | [] => (st, .err)
+          | [x] =>
+            ({ st with dbConfig := insert st.dbConfig next x.2, nextConfig := dropUpTo st.nextConfig next,
+                       diskConfig := dropDisk st.diskConfig st.nextConfig next }, .ok)
+          | _ => (st, .amb)
+
+/-! ### operations -/
+
+inductive Op where
+  | add (h : Nat)                       -- AddBlock
+  | ann (h d : Nat)                     -- HandleBABEDigest(header, NextEpochData d)
+  | cfg (h d : Nat)                     -- HandleBABEDigest(header, NextConfigDataV1 d)
+  | dbe (epoch d : Nat)                 -- SetEpochDataRaw
+  | dbc (epoch d : Nat)                 -- StoreConfigData
+  | restart                             -- NewEpochState: maps restored from the database
+  | fin (h round : Nat)                 -- SetFinalisedHash(h, round, 0); on success both Finalize… calls
+  | skipE (h skipped current : Nat)     -- GetSkippedEpochDataRaw
+  | skipC (h skipped current : Nat)     -- GetSkippedConfigData
+  | upd (h skipped current : Nat)       -- UpdateSkippedEpochDefinitions
+deriving Repr
+
+inductive Out where
+  | ok | err
+  | res (r : Res)
+  | fin (r : C17.FinRes) (e c : Tri)
+  | amb
+deriving Repr
+
+def step (u : Univ) (st : St) : Op → St × Out
+  | .add h =>
+    let (bs', r) := C17.addBlock st.bs (u.blk h)
+    ({ st with bs := bs' }, if r = .ok then .ok else .err)
+  | .ann h d => match epochForBlock u st (u.blk h) with
+    | some e => ({ st with nextEpoch := store st.nextEpoch (nextOf e) h d,
+                           diskEpoch := store st.diskEpoch (nextOf e) h d }, .ok)
+    | none => (st, .err)
+  | .cfg h d => match epochForBlock u st (u.blk h) with
+    | some e => ({ st with nextConfig := store st.nextConfig (nextOf e) h d,
+                           diskConfig := store st.diskConfig (nextOf e) h d }, .ok)
+    | none => (st, .err)
+  | .dbe e d => ({ st with dbEpoch := insert st.dbEpoch e d }, .ok)
+  | .dbc e d => ({ st with dbConfig := insert st.dbConfig e d }, .ok)
+  | .restart => ({ st with nextEpoch := st.diskEpoch, nextConfig := st.diskConfig }, .ok)
+  | .fin h r =>
+    let sub := subchain st.bs h
+    let (bs', res) := C17.setFinalised genesis.hash st.bs h r 0
+    if res = .ok then
+      let moved := h ≠ st.bs.root
+      let fsn' := if moved then
+          (match sub.find? (fun b => b.number = 1) with
+            | some b => u.slot b.hash
+            | none => st.fsn)
+        else st.fsn
+      let st1 := { st with bs := bs', fsn := fsn' }
+      let (st2, e) := finalizeEpoch u st1 (u.blk h)
+      let (st3, c) := finalizeConfig u st2 (u.blk h)
+      (st3, .fin res e c)
+    else ({ st with bs := bs' }, .fin res .ok .ok)
+  | .skipE h s c =>
+    if ambRU st st.nextEpoch st.dbEpoch s (u.blk h) then (st, .amb)
+    else let (st', r) := getSkippedEpochData st s c (u.blk h); (st', .res r)
+  | .skipC h s c =>
+    if ambRU st st.nextConfig st.dbConfig s (u.blk h) then (st, .amb)
+    else let (st', r) := getSkippedConfig st s c (u.blk h); (st', .res r)
+  | .upd h s c =>
+    if ambRU st st.nextEpoch st.dbEpoch s (u.blk h) || ambRU st st.nextConfig st.dbConfig s (u.blk h) then (st, .amb)
+    else let (st', ok) := updateSkipped st s c (u.blk h); (st', if ok then .ok else .err)
+
+def run (u : Univ) (epochLen : Nat) (ops : List Op) : St := ops.foldl (fun s o => (step u s o).1) (St.init epochLen)
 
 end Gossamer.C26
